@@ -22,7 +22,7 @@ func NewFilterTree() internaltypes.FilterTreeI {
 func (f *FilterTree) AddFlow(flow internaltypes.FlowI) error {
 	filter := flow.GetFilter()
 	result := f.tree.Lookup(filter.GetURL())
-	if result.Match && result.NormalizedURL == filter.GetURL() &&
+	if result.Match && result.NormalizedURL == declaredURLKey(filter.GetURL()) &&
 		result.Value.isDeclaredOn(filter.GetURL()) {
 		log.Debug().Msgf("Adding %s flow to existing filter tree: %v",
 			flow.GetType().String(), filter.GetURL())
